@@ -76,10 +76,10 @@ func c14TCPJobs(tier string) []string {
 			piss := uint32(edge - uint64(o))
 			iss := uint32(edge - uint64(o) - 3)
 			b := 1
-			add(fmt.Sprintf("or=sw,devs=kwhlo,mss=24,w=72,pd=3x20,iss=%d,piss=%d,b=%d", iss, piss, b), 2)
+			add(fmt.Sprintf("or=swc,devs=kwhlo,mss=24,w=72,pd=3x20,iss=%d,piss=%d,b=%d", iss, piss, b), 2)
 			if tier == "thorough" {
-				add(fmt.Sprintf("or=sw,devs=kwhloe,mss=24,w=72,pd=3x20,psack=1,sack=1,ts=1,iss=%d,piss=%d,b=1", iss, piss), 2)
-				add(fmt.Sprintf("or=sw,devs=kwhlo,mss=24,w=48,pd=2x20,iss=%d,piss=%d,b=2", iss, piss), 16)
+				add(fmt.Sprintf("or=swc,devs=kwhloe,mss=24,w=72,pd=3x20,psack=1,sack=1,ts=1,iss=%d,piss=%d,b=1", iss, piss), 2)
+				add(fmt.Sprintf("or=swc,devs=kwhlo,mss=24,w=48,pd=2x20,iss=%d,piss=%d,b=2", iss, piss), 16)
 			}
 		}
 	}
